@@ -328,12 +328,25 @@ def run(ctx):
     for op in pool:
         by_stem.setdefault(_stem(op.get("script") or ""), []).append(op)
     stems = sorted(by_stem)
+    # calls grouped by the definable name they mention (operator / ruleset / propagation-rule names): a definition
+    # in one call and a use - with or without a definition of its own - in a later call of the same history
+    import re as _re
+
+    by_name = {}
+    for op in pool:
+        for nm in set(_re.findall(r"\b(f1|f2|f3|g1|HR_1|HR_2|dpr_1|vp)\b", op.get("script") or "")):
+            by_name.setdefault(nm, []).append(op)
+    names = sorted(n for n, v in by_name.items() if len(v) >= 2)
     hist = []
     for h in range(n):
         k = rng.choice([2, 2, 3, 3, 4, 5, 6, 8])
         if rng.random() < 0.12:
             k = rng.choice([16, 24, 40, 60])          # long histories: accumulation
-        if rng.random() < 0.5:
+        r = rng.random()
+        if r < 0.3 and names:
+            ws = by_name[rng.choice(names)]
+            hist.append((h, [rng.choice(ws) for _ in range(k)]))
+        elif r < 0.6:
             # a small working set per history, so that variants of the same text (and definitions and uses of the same names) meet
             ws = [op for st in rng.sample(stems, min(2, len(stems))) for op in by_stem[st]]
             hist.append((h, [rng.choice(ws) for _ in range(k)]))
